@@ -1,0 +1,26 @@
+//go:build verif
+
+package harfbuzz
+
+// Hooks for the verification harness (property C01, extension round): the remaining Buffer
+// operations (sort, reverseGroups on graphemes with and without cluster merging; AddRune and
+// AddRunes are exported already). Nothing here changes behaviour.
+
+// VerifSort calls sort(start, end, compareCombiningClass), as the normalizer does.
+func (b *Buffer) VerifSort(start, end int) { b.sort(start, end, compareCombiningClass) }
+
+// VerifReverseGraphemes reverses the graphemes of the buffer. When `merge` is what
+// reverseGraphemes itself would choose for the cluster level of the buffer, that function is
+// called; otherwise reverseGroups is called with its grouping function and the given flag.
+func (b *Buffer) VerifReverseGraphemes(merge bool) {
+	if merge == (b.ClusterLevel == MonotoneCharacters) {
+		reverseGraphemes(b)
+		return
+	}
+	b.reverseGroups(func(_, gi2 *GlyphInfo) bool { return gi2.isContinuation() }, merge)
+}
+
+// VerifContexts returns the pre- and post-context runes (pre-context ordered outward).
+func (b *Buffer) VerifContexts() (pre, post []rune) {
+	return append([]rune(nil), b.context[0]...), append([]rune(nil), b.context[1]...)
+}
